@@ -244,7 +244,7 @@ def closure (deps : Nat → List Nat) : Nat → List Nat → List Nat → List N
 /-- the producers of command-line word `w` among the creators whose loader matches `w`: tasks created (under the
     creator's own name) that declare `w` as a target -/
 def producers (c : Case) (w : Nat) : List Nat :=
-  (matched c.pre w c.pre.tasks).flatMap fun (t, l) =>
+  (matched c.pre (fun _ => none) w c.pre.tasks).flatMap fun (t, l) =>
     ((mkMake c.makeTab (c.pre.creatorOf l) t).filter (fun nt => nt.targets.contains w)).map (·.name)
 
 /-- … among all creators (a target may be registered by a creator that was evaluated for another reason) -/
@@ -263,7 +263,7 @@ def wordKind (c : Case) (wd : Word) : WordKind :=
     | none =>
       match lookup0 c.pre.tasks wd.base with
       | some td => (match td.loader with | some l => .sub l | none => .unknown)
-      | none => if matched c.pre wd.w c.pre.tasks = [] then .unknown else .rx
+      | none => if matched c.pre (fun _ => none) wd.w c.pre.tasks = [] then .unknown else .rx
 
 def trigL (c : Case) (l : LId) : List Nat := match c.pre.execOf l with | some d => [d] | none => []
 
@@ -272,7 +272,7 @@ def trigL (c : Case) (l : LId) : List Nat := match c.pre.execOf l with | some d 
     once (`regex_group.found`) and their `executed` task is not needed; under the parallel runners a later placeholder
     may start before `found` is set. -/
 def neededLoaders (c : Case) (w : Nat) : List (Nat × LId) :=
-  let ms := matched c.pre w c.pre.tasks
+  let ms := matched c.pre (fun _ => none) w c.pre.tasks
   if !c.serial then ms else
   match ms.findIdx? (fun (t, l) => (mkMake c.makeTab (c.pre.creatorOf l) t).any (fun nt => nt.targets.contains w)) with
   | some i => ms.take (i + 1)
